@@ -29,6 +29,13 @@ def leaves(t):
         for x in t[2]:
             out.extend(leaves(x))
         return out
+    # a column of a melted frame: one leaf per melted value column (melt stacks one copy of the rows per value column)
+    mp = T.melt_pieces(t) if isinstance(t, tuple) else None
+    if mp is not None and len(mp) >= 2:
+        out = []
+        for _lab, x in mp:
+            out.extend(leaves(x))
+        return out
     return [t]
 
 
